@@ -8,6 +8,9 @@ CONSTANTS
   MaxChunk = 3
   ReadSizes = {0, 1, 2, 4096}
   MaxHist = 5
+  MaxConds = 1
+  OneShots = {"err"}
+  CloseErrs = {FALSE, TRUE}
 VIEW GView
 CONSTRAINT GBound
 CHECK_DEADLOCK FALSE
